@@ -23,16 +23,16 @@ Theorem E2E_history :
     wok n w -> wf n s Y ->
     p_w p = w /\ p_Yw p = wscale w Y ->
     coherent um (num_solve n m) Phi p ->
-  forall (C R : smx F), let p' := (run um (num_solve n m) jaccol p os).1 in
-    p_cached p' = Some (C, R) ->
+  forall (C R P : smx F), let p' := (run um (num_solve n m) jaccol p os).1 in
+    p_cached p' = Some (C, R, P) ->
     [/\ wf m s C,
         forall (j : 'I_s) (c' : 'cV[F]_m),
           nrm2 (Wm n w *m (col j (mx_of n s Y) - mx_of n m (Phi (params um p')) *m col j (mx_of m s C)))
           <= nrm2 (Wm n w *m (col j (mx_of n s Y) - mx_of n m (Phi (params um p')) *m c'))
       & mx_of n s R = Wm n w *m (mx_of n s Y - mx_of n m (Phi (params um p')) *m mx_of m s C)].
 Proof.
-move=> F n m s V St Col um Phi D FF sh jaccol w Y p os hw hY hb co C R p'.
-exact: (@history_end_to_end F n m s V St Col um Phi D FF sh jaccol w Y p os hw hY hb co C R).
+move=> F n m s V St Col um Phi D FF sh jaccol w Y p os hw hY hb co C R P p'.
+exact: (@history_end_to_end F n m s V St Col um Phi D FF sh jaccol w Y p os hw hY hb co C R P).
 Qed.
 
 (* a single update from ANY problem state (no hypothesis on what was cached before) *)
@@ -43,16 +43,16 @@ Theorem E2E_update :
   forall (w : option (seq F)) (Y : smx F) (p : num_problem F St) (a : V),
     wok n w -> wf n s Y ->
     p_w p = w /\ p_Yw p = wscale w Y ->
-  forall (C R : smx F), let p' := set_params um (num_solve n m) p a in
-    p_cached p' = Some (C, R) ->
+  forall (C R P : smx F), let p' := set_params um (num_solve n m) p a in
+    p_cached p' = Some (C, R, P) ->
     [/\ wf m s C,
         forall (j : 'I_s) (c' : 'cV[F]_m),
           nrm2 (Wm n w *m (col j (mx_of n s Y) - mx_of n m (Phi (params um p')) *m col j (mx_of m s C)))
           <= nrm2 (Wm n w *m (col j (mx_of n s Y) - mx_of n m (Phi (params um p')) *m c'))
       & mx_of n s R = Wm n w *m (mx_of n s Y - mx_of n m (Phi (params um p')) *m mx_of m s C)].
 Proof.
-move=> F n m s V St um Phi D FF sh w Y p a hw hY hb C R p'.
-exact: (@update_end_to_end F n m s V St um Phi D FF sh w Y p a hw hY hb C R).
+move=> F n m s V St um Phi D FF sh w Y p a hw hY hb C R P p'.
+exact: (@update_end_to_end F n m s V St um Phi D FF sh w Y p a hw hY hb C R P).
 Qed.
 
 (* C04: for EVERY script of accepted and rejected trial steps and every termination reason (fit returning Ok or Err
@@ -70,17 +70,54 @@ Theorem E2E_fit :
     coherent um (num_solve n m) Phi p ->
     p_cached p = Some c0 ->
     minimize um (num_solve n m) jaccol dec script p = Some (p', r) ->
-  forall (C R : smx F),
-    p_cached p' = Some (C, R) ->
+  forall (C R P : smx F),
+    p_cached p' = Some (C, R, P) ->
     [/\ wf m s C,
         forall (j : 'I_s) (c' : 'cV[F]_m),
           nrm2 (Wm n w *m (col j (mx_of n s Y) - mx_of n m (Phi (params um p')) *m col j (mx_of m s C)))
           <= nrm2 (Wm n w *m (col j (mx_of n s Y) - mx_of n m (Phi (params um p')) *m c'))
       & mx_of n s R = Wm n w *m (mx_of n s Y - mx_of n m (Phi (params um p')) *m mx_of m s C)].
 Proof.
-move=> F n m s V St Col um Phi D FF sh jaccol w Y dec script p p' r c0 hw hY hb co hc0 hmin C R.
-exact: (@fit_end_to_end F n m s V St Col um Phi D FF sh jaccol w Y dec script p p' r c0 hw hY hb co hc0 hmin C R).
+move=> F n m s V St Col um Phi D FF sh jaccol w Y dec script p p' r c0 hw hY hb co hc0 hmin C R P.
+exact: (@fit_end_to_end F n m s V St Col um Phi D FF sh jaccol w Y dec script p p' r c0 hw hY hb co hc0 hmin C R P).
 Qed.
+
+(* C03 for every history: a Jacobian that is produced has exactly one column per nonlinear parameter, and column k is the
+   specification's column for the derivative matrix D_k AT THE PARAMETERS THE PROBLEM REPORTS and the coefficients it shows ... *)
+Theorem E2E_jacobian :
+  forall (F : realFieldType) (n m s : nat) (V St : Type) (um : umodel V (smx F) St)
+         (Phi : V -> smx F) (D : nat -> V -> smx F),
+    faulty_functional um Phi D -> (forall a : V, wf n m (Phi a)) ->
+  forall (w : option (seq F)) (Y : smx F) (p : num_problem F St) (os : seq (op V)),
+    wok n w -> wf n s Y ->
+    p_w p = w /\ p_Yw p = wscale w Y ->
+    coherent um (num_solve n m) Phi p ->
+  let p' := (run um (num_solve n m) (num_jaccol n m) p os).1 in
+  forall (C R P : smx F) (p'' : num_problem F St) (cols : seq (option (seq F))),
+    p_cached p' = Some (C, R, P) ->
+    jacobian um (num_jaccol n m) p' = (p'', Some cols) ->
+    cols = List.map (fun k => spec_jac_col n m w (Phi (params um p')) (D k (params um p')) C)
+                    (List.seq 0 (um_nparams um (p_st p')))
+    /\ spec_coeffs n m w (Phi (params um p')) Y = Some C.
+Proof.
+move=> F n m s V St um Phi D FF sh w Y p os hw hY hb co p' C R P p'' cols.
+exact: (@jacobian_end_to_end F n m s V St um Phi D FF w Y p os hw hY hb co C R P p'' cols).
+Qed.
+
+(* ... and wherever coefficients exist such a column exists and is the Kaufman column -(I - P) W D_k C, orthogonal to
+   range(W Phi) *)
+Theorem E2E_jacobian_column :
+  forall (F : realFieldType) (n m s : nat) (w : option (seq F)) (Y P C Dk : smx F),
+    wok n w -> wf n m P -> wf n s Y -> wf n m Dk -> spec_coeffs n m w P Y = Some C ->
+  exists (jc : seq F) (M : smx F),
+    [/\ spec_jac_col n m w P Dk C = Some jc, jc = flatten M, wf n s M,
+        mx_of n s M
+        = - ((1%:M - (Wm n w *m mx_of n m P)
+                      *m invmx ((Wm n w *m mx_of n m P)^T *m (Wm n w *m mx_of n m P))
+                      *m (Wm n w *m mx_of n m P)^T)
+             *m (Wm n w *m mx_of n m Dk *m mx_of m s C))
+      & (Wm n w *m mx_of n m P)^T *m mx_of n s M = 0].
+Proof. move=> F n m s w Y P C Dk; exact: num_jaccol_formula. Qed.
 
 (* non-vacuity: a concrete model over the rationals (basis [1, a*x], x = 1,2,3), weights (1,2,1), two right-hand sides,
    a history with two updates: the premises hold and the final state does show coefficients and residuals *)
@@ -97,7 +134,6 @@ Definition ex_Y : smx Qc_realFieldType := [:: [:: 1; 1 + 1; 1 + 1 + 1 + 1]; [:: 
 Definition ex_p0 : num_problem Qc_realFieldType (seq Qc) :=
   {| p_st := [:: 1]; p_Yw := wscale ex_w ex_Y; p_eps := tt; p_w := ex_w;
      p_cached := num_solve 3 2 ex_w tt (ex_Phi [:: 1]) (wscale ex_w ex_Y) |}.
-Definition ex_jaccol (w : option (seq Qc)) (c : num_cache Qc_realFieldType) (d : smx Qc_realFieldType) : unit := tt.
 
 Lemma ex_ff : faulty_functional ex_um ex_Phi ex_D.
 Proof.
@@ -111,15 +147,19 @@ Qed.
 Example E2E_nonvacuous :
   [/\ faulty_functional ex_um ex_Phi ex_D, (forall a, wf 3 2 (ex_Phi a)),
       coherent ex_um (num_solve 3 2) ex_Phi ex_p0
-    & exists C R, p_cached (run ex_um (num_solve 3 2) ex_jaccol ex_p0
-                              [:: OSet [:: 1 + 1]; OObserve; OJac; OSet [:: 1 + 1 + 1]]).1 = Some (C, R)].
+    & exists C R P J, p_cached (run ex_um (num_solve 3 2) (num_jaccol 3 2) ex_p0
+                              [:: OSet [:: 1 + 1]; OObserve; OJac; OSet [:: 1 + 1 + 1]]).1 = Some (C, R, P) /\
+        (jacobian ex_um (num_jaccol 3 2) (run ex_um (num_solve 3 2) (num_jaccol 3 2) ex_p0
+                              [:: OSet [:: 1 + 1]; OObserve; OJac; OSet [:: 1 + 1 + 1]]).1).2 = Some [:: Some J]].
 Proof.
 split; [exact: ex_ff | by [] | by move=> c; rewrite /coherent /= => -> |].
-by vm_compute; eexists; eexists; reflexivity.
+by vm_compute; do 4!eexists; split; reflexivity.
 Qed.
 End Example.
 
 Print Assumptions E2E_history.
 Print Assumptions E2E_update.
 Print Assumptions E2E_fit.
+Print Assumptions E2E_jacobian.
+Print Assumptions E2E_jacobian_column.
 Print Assumptions E2E_nonvacuous.
